@@ -40,6 +40,7 @@ META["text"] += " R6 also requires the helper's placement order: one-vote values
 META["text"] += ' R5 also: the ONEAudit estimate places one-vote and two-vote errors under independent tests (both rates can be positive).'
 META["text"] += ' R1 also: the pilot data are used as given (not clipped or rounded first). R4 also: no assumed rate is defaulted through `or`.'
 META["text"] += ' R2 also: no estimate leaves sample_size before the hypothetical population is built (no shortcut on the data in hand).'
+META["text"] += ' R6 also: the RAIRE helper keeps no memo between calls.'
 
 
 def run(chk):
@@ -47,6 +48,7 @@ def run(chk):
                 "R4 assumed data per audit type + every callee resolves; R5 maxima; R6 sibling constants of the RAIRE helper.")
     chk.trust("np.tile / np.resize repeat the sequence; np.argmax of a boolean array is the first True", "symx term identity",
               "C05 (non-anticipation) for the prefix clause")
+    r6_state(chk)
     r12(chk)
     r3(chk)
     r4(chk)
@@ -121,6 +123,11 @@ def want_crossing(tx, pop):
     t2.env["POP"] = tx.env.get(pop, E(S(pop)))
     t2.env["kwargs"] = E(S("kwargs"))
     return t2.expr(ast.parse("self.N if np.sum((self.test(POP, **kwargs)[1]) <= alpha) == 0 else (np.argmax((self.test(POP, **kwargs)[1]) <= alpha) + 1)", mode="eval").body)
+
+
+def r6_state(chk):
+    aud.keeps_no_state(chk, "C16.R6", RE2, ["sample_size", "bp_estimate", "cp_estimate"],
+                       "the RAIRE helper's estimate is a function of the tallies and options of the call")
 
 
 def r12(chk):
